@@ -623,14 +623,29 @@ def _versions() -> Dict[str, str]:
 
 
 def run_replay(prop: str, path: str) -> int:
+    """Replay one case file in its own process (a reproducer may abort the interpreter)."""
     prop = prop.upper()
-    ensure_sut()
-    mod = load_module(prop)
-    data = json.load(open(path))
-    known = [e.sig for e in load_known_findings() if e.property_id == prop and e.kind == "known"]
-    v = replay_entry(mod, data.get("check"), data["case"], known=() if os.environ.get("VERIF_REPLAY_FULL", "1") == "1" else known)
-    if v is None:
-        print(f"{prop} replay {path}: property holds on this case")
-        return 0
-    print(f"VIOLATION property={prop} replay={path} bucket={v.bucket} :: {v.message[:500]}")
-    return 1
+    path = os.path.abspath(path)
+    tmp = tempfile.mkdtemp(prefix=f"vfw-{prop}-replay-")
+    try:
+        out = os.path.join(tmp, "replay.json")
+        p = _spawn({"prop": prop, "tier": "quick", "seed": 0, "out": out, "replay": {"path": path, "check": None}})
+        rc = p.wait()
+        if os.path.exists(out):
+            r = json.load(open(out))
+            if r.get("harness_error"):
+                print("HARNESS-ERROR", r["harness_error"][-3000:])
+                return 2
+            if not r["reproduced"]:
+                print(f"{prop} replay {path}: property holds on this case")
+                return 0
+            print(f"VIOLATION property={prop} replay={path} bucket={r['bucket']} :: {str(r['message'])[:500]}")
+            return 1
+        if rc is not None and rc < 0:
+            tail = open(out + ".stderr", "rb").read()[-300:].decode("utf-8", "replace")
+            print(f"VIOLATION property={prop} replay={path} bucket=process-crash:signal{-rc} :: the process died with signal {-rc}: {tail}")
+            return 1
+        print(f"HARNESS-ERROR replay produced no result (rc={rc})")
+        return 2
+    finally:
+        shutil.rmtree(tmp, ignore_errors=True)
